@@ -24,6 +24,7 @@ import (
 	"encoding/asn1"
 	"encoding/base64"
 	"encoding/binary"
+	"encoding/hex"
 	"encoding/pem"
 	"fmt"
 	"math/big"
@@ -1714,6 +1715,8 @@ func mutateBytes(r *Rng, b []byte) []byte {
 	return b
 }
 
+const coqEncodedExample = "308201bd3082016fa003020102020300c801300506032b65703015311330110603550403130a4578616d706c652043413020170d3439313233313233353935395a180f32303530303130313030303030305a3017311530130603550403130c6c6561662e6578616d706c65302a300506032b65700321000707070707070707070707070707070707070707070707070707070707070707a381dd3081da305c0603551d11045530538704c00002018209612e6578616d706c65a00606012aa00105810b7840612e6578616d706c65861968747470733a2f2f612e6578616d706c652f703f713d312366871020010db8000000000001000000000001300e0603551d0f0101ff040403020186301306092b06010401868d1f0104060c046e6f746530120603551d130101ff040830060101ff02010030200603551d250101000416301406032a030406082b060105050703010603883701300d0603551d0e0406040403de503530100603551d230409300780020abc820105300506032b6570034100aaaaaaaaaaaaaaaaaaaaaaaaaaaaaaaaaaaaaaaaaaaaaaaaaaaaaaaaaaaaaaaaaaaaaaaaaaaaaaaaaaaaaaaaaaaaaaaaaaaaaaaaaaaaaaaaaaaaaaaaaaaaaaaa"
+
 func utcT(s string) []byte { return tlv(0x17, []byte(s)) }
 func genT(s string) []byte { return tlv(0x18, []byte(s)) }
 
@@ -2063,6 +2066,23 @@ func (g *c03) genDerStream() {
 		t := g.baseCert()
 		v.f(t)
 		g.emitDer(v.tag, t, t.rawDER(r), v.known, v.inspect)
+	}
+
+	// ---- the octets written by the Coq writer for Proofs/CertDer.v's example_der (Example
+	// example_der_octets): the library and the tool must read them as the theorems say ----
+	{
+		der, _ := hex.DecodeString(coqEncodedExample)
+		t := g.baseCert()
+		t.serial = big.NewInt(51201)
+		t.nb, t.na = time.Date(2049, 12, 31, 23, 59, 59, 0, time.UTC), time.Date(2050, 1, 1, 0, 0, 0, 0, time.UTC)
+		t.ku = []bool{true, false, false, false, false, true, true}
+		t.hasBasic, t.isCA, t.hasPathLen, t.pathLen = true, true, true, 0
+		t.hasEKU, t.ekus = true, [][]int{{1, 2, 3, 4}, ekuOIDs[1], {2, 999, 1}}
+		t.hasSAN = true
+		t.sans = []encSAN{{7, []byte{192, 0, 2, 1}}, {2, []byte("a.example")}, {0, []byte{6, 1, 42, 160, 1, 5}}, {1, []byte("x@a.example")},
+			{6, []byte("https://a.example/p?q=1#f")}, {7, []byte{0x20, 1, 0x0d, 0xb8, 0, 0, 0, 0, 0, 1, 0, 0, 0, 0, 0, 1}}}
+		t.ski, t.aki = []byte{3, 0xde, 0x50, 0x35}, []byte{0x0a, 0xbc}
+		g.emitDer("coq-encoded", t, der, true, true)
 	}
 
 	// ---- random: mutated values of each modelled part inside an otherwise clean certificate ----
